@@ -179,7 +179,24 @@ def run(ctx):
         ok = bool(an) and all(domg.get(a.id, set()) & creators for a in an)
         ctx.check('R4', 'RemoteServer.run: a child is registered only after it was created successfully', ok, 'RemoteServer.run', 'register-without-creation',
                   'children.append() is reachable without a successfully received worker', where=loc(f, c))
-    ctx.stats.update({'tainted_sites': n_sites, 'abandon_paths': n_cont, 'registry_mutations': n_mut})
+    # the sockets of a remote worker are bound by the start-up functions only: a control/helper thread that rebinds them (e.g. to None after closing)
+    # turns the ConnectionClosedError the accept loop contains into an AttributeError/TypeError it does not
+    n_bind = 0
+    for c in [RW] + P.subclasses(RW):
+        for fn in c.methods.values():
+            for st in walk_local(fn.node):
+                if isinstance(st, ast.Assign):
+                    for t in st.targets:
+                        for el in (t.elts if isinstance(t, ast.Tuple) else [t]):
+                            if is_self_attr(el) and el.attr in ('_socket', '_ctrl_sock'):
+                                n_bind += 1
+                                ok = fn.name in ('__init__', '_start', '__setstate__', '_run_frontend')
+                                ctx.check('R4', f'{fn.short}: `self.{el.attr}` is bound by a start-up function', ok, fn.short, f'socket-rebound:{el.attr}@{fn.name}',
+                                          f'{fn.short} rebinds self.{el.attr} (`{norm(st)}`) while other threads of the server still use it: a client that disconnects at the wrong moment '
+                                          'makes the accept thread fail with AttributeError/TypeError instead of the ConnectionClosedError the accept loop contains - the server stops',
+                                          where=loc(fn, st))
+    ctx.floor('bindings of the worker sockets', n_bind, 3)
+    ctx.stats.update({'tainted_sites': n_sites, 'abandon_paths': n_cont, 'registry_mutations': n_mut, 'socket_bindings': n_bind})
 
 
 def role_of_call(call):
